@@ -32,7 +32,7 @@ func init() {
 
 func runC05(c *Ctx) {
 	p := c.P
-	c.Rule("R5.1", "E2", "lookups copy out only from the slot whose seqno compared equal, bounded by that slot's length", 5)
+	c.Rule("R5.1", "E2", "lookups copy out only from the slot whose seqno compared equal, bounded by that slot's length; the scan passes over every other slot", 6)
 	c.Rule("R5.2", "E6", "Store writes one slot through one cursor with the parameters' values; packing agrees; stored length <= slot size", 8)
 	c.Rule("R5.3", "E5", "ring accessed only under Cache.mu; slot bytes never escape by reference", 10)
 	c.Rule("R5.4", "E2", "consumers use exactly the returned count; stored bytes are the bytes read, keyed by the packet's own fields; writers fetch by the pair Store returned", 8)
@@ -193,6 +193,53 @@ func cacheLookupRules(c *Ctx, rule string) {
 	}
 	if ncopy < 2 {
 		c.Bad(rule, "lookups found", 0, "only %d copy-out sites found in packetcache (get and GetAt expected)", ncopy)
+	}
+	// the scan of get passes over every slot that does not hold the packet:
+	// it ends early only with the hit
+	if g := p.Func("packetcache", "", "get"); g != nil {
+		ff := eng.Analyze(g)
+		params := g.params(g.Pkg.TypesInfo)
+		okScan, nloops, why := true, 0, ""
+		ast.Inspect(g.Body(), func(n ast.Node) bool {
+			rs, ok := n.(*ast.RangeStmt)
+			if !ok {
+				return true
+			}
+			nloops++
+			ast.Inspect(rs.Body, func(m ast.Node) bool {
+				switch x := m.(type) {
+				case *ast.FuncLit:
+					return false
+				case *ast.BranchStmt:
+					if x.Tok != token.CONTINUE {
+						okScan, why = false, "a "+x.Tok.String()+" at "+p.PosStr(x.Pos())
+					}
+				case *ast.ReturnStmt:
+					// a hit: unreachable unless an edge established slot.seqno == seqno
+					hit := !ff.ReachableAvoiding(x, func(f *Fact, st *State) bool {
+						if f.Op != "eq" || !f.Pos || f.B == nil {
+							return false
+						}
+						for _, pr := range [][2]*Term{{f.A, f.B}, {f.B, f.A}} {
+							if pr[0].K == 'f' && pr[0].Obj == types.Object(fSeq) && pr[1].K == 'v' {
+								for _, po := range params {
+									if po != nil && pr[1].Obj == po {
+										return true
+									}
+								}
+							}
+						}
+						return false
+					})
+					if !hit {
+						okScan, why = false, "a return at "+p.PosStr(x.Pos())+" that is not the hit"
+					}
+				}
+				return true
+			})
+			return true
+		})
+		c.Check(okScan && nloops == 1, rule, "get scans every slot", g.Pos(), "the loop over the slots is left early only by returning the slot whose seqno compared equal", "the scan of the cache stops at "+why+": packets stored behind an unused or foreign slot are not found although they are cached")
 	}
 	// the count returned by the copy-out is what the lookups return
 	for _, name := range []string{"get", "GetAt"} {
